@@ -277,6 +277,16 @@ class StateModel:
         return wrap(ok, "bool")
 
     # hooks used by the executor --------------------------------------------------
+    def setattr(self, run: Run, base: Any, attr: str, v: Any, n):
+        # state.pos = <int | None value>: the position must be an int (never None)
+        if isinstance(base, Ref) and attr == "pos" and isinstance(v, Sym) and v.k == "optint":
+            from pyvc.sorts import OptInt
+
+            run.oblige("pos.not_none", OptInt.is_some_i(v.t))
+            run.setf(base, attr, Sym(OptInt.ival(v.t), "int"))
+            return None
+        return NotImplemented
+
     def as_seq(self, run: Run, v: Any):
         if isinstance(v, Ref) and run.cls_of(v) == STACK:
             o = run.obj(v)
